@@ -27,7 +27,7 @@ struct VecInfo<amc::Vector<T, Alloc, SizeType, GP, N> > {
   static constexpr bool kFixed = std::is_same<Alloc, amc::vec::EmptyAlloc>::value;
   static constexpr bool kSmall = !kFixed && N != 0;
   static constexpr bool kPlain = !kFixed && N == 0;
-  static constexpr uintmax_t kN = N;
+  enum : uintmax_t { kN = N };  // an enumerator: usable by reference before C++17 without an out-of-class definition
   static uintmax_t limit() { return kFixed ? static_cast<uintmax_t>(N) : static_cast<uintmax_t>(std::numeric_limits<SizeType>::max()); }
   static const char *flavour() { return kFixed ? "Fixed" : kSmall ? "Small" : "vector"; }
 };
